@@ -235,10 +235,15 @@ def _fake_session_request(self=None, method=None, url=None, **kwargs):
     if url.startswith(Net.gateway_prefix):
         Net.log.append(("gw", url))
         s = Net.script
+        if isinstance(s, list):
+            # one outcome per gateway leg of this application call (the last one repeats)
+            s = s.pop(0) if len(s) > 1 else s[0]
         if s == "ok":
             return FakeResponse("gw")
-        if s == "errhdr":
-            return FakeResponse("gw-err", {"x-lunar-error": "3"})
+        if s.startswith("errhdr"):
+            return FakeResponse("gw-err", {"x-lunar-error": s[len("errhdr"):] or "3"})
+        if s == "retry":
+            return FakeResponse("gw-retry", {"x-lunar-retry-after": "0", "x-lunar-sequence-id": "seq-1"})
         raise Net.exc
     Net.log.append(("direct", url))
     return FakeResponse("direct")
@@ -1187,6 +1192,15 @@ def gen_hook_case(rng, length):
         else:
             url = rng.choice(urls[:2] * 4 + urls)
             out = rng.choice(["ok", "ok", "errhdr", "errhdr", "conn", "conn", "connsub", "app", "appbase"])
+            y = rng.random()
+            if out == "errhdr" and y < 0.5:
+                # any x-lunar-error marks a gateway-side failure: codes the interceptor has texts for (1-5), the code
+                # haproxy.cfg sends while the gateway shuts down (10), and one a newer gateway might add
+                out = "errhdr" + rng.choice(["1", "2", "4", "5", "10", "10", "77"])
+            elif out in ("ok", "errhdr", "conn") and y > 0.7:
+                # the gateway first asks the interceptor to retry (x-lunar-retry-after + sequence id); the outcome
+                # of the application call is that of the last leg
+                out = rng.choice(["retry>", "retry>", "retry>retry>"]) + out
             evs.append(["req", url, out])
     return {"kind": "hook", "env": {ENV_TH: str(th), ENV_CD: str(cd), ENV_BLOCK: "blocked.test"}, "th": th, "cd": cd, "events": evs}
 
@@ -1208,7 +1222,8 @@ def run_hook_case(repo, case):
     CLOCK.t = 1000.0
     convs = CONVS8
     refs = [INIT] * len(convs)
-    stats = {"gw_calls": 0, "direct_after_gw_failure": 0, "filtered": 0, "bypassed": 0, "opens": 0, "recoveries": 0}
+    stats = {"gw_calls": 0, "direct_after_gw_failure": 0, "filtered": 0, "bypassed": 0, "opens": 0, "recoveries": 0,
+             "calls_with_gateway_retry_legs": 0, "gateway_error_codes_other_than_3": 0}
     last = True
     obs = []
 
@@ -1226,12 +1241,19 @@ def run_hook_case(repo, case):
         _, url, out = ev
         Net.log = []
         exc_obj = None
-        if out in ("ok", "errhdr"):
-            Net.script = out
+        steps = out.split(">")
+        out = steps[-1]
+        nlegs = len(steps)
+        if out == "ok" or out.startswith("errhdr"):
+            Net.script = steps[:-1] + [out]
         else:
-            Net.script = "raise"
+            Net.script = steps[:-1] + ["raise"]
             exc_obj = {"conn": GwConnError, "connsub": GwConnErrorSub, "app": AppError, "appbase": AppBase}[out]("net")
             Net.exc = exc_obj
+        if nlegs > 1:
+            stats["calls_with_gateway_retry_legs"] += 1
+        if out.startswith("errhdr") and out != "errhdr":
+            stats["gateway_error_codes_other_than_3"] += 1
         esc, resp = None, None
         try:
             resp = request(session, "GET", url, headers={"accept": "*/*"})
@@ -1262,10 +1284,10 @@ def run_hook_case(repo, case):
                 return viol(idx, "failsafe/gateway-error-propagated" if kind == "E" else "hook/raises",
                             "call raised %r into the application (gateway leg outcome %s)" % (esc, out)), stats
             elif kind == "E":
-                if legs != ["gw", "direct"] or resp is None or resp.tag != "direct":
+                if legs != ["gw"] * nlegs + ["direct"] or resp is None or resp.tag != "direct":
                     return viol(idx, "hook/no-direct-fallback", "after a gateway-side failure the call must be served directly; legs=%s" % legs), stats
                 stats["direct_after_gw_failure"] += 1
-            elif legs != ["gw"] or resp.tag != "gw":
+            elif legs != ["gw"] * nlegs or resp.tag != "gw":
                 return viol(idx, "hook/legs", "successful gateway call produced legs %s" % legs), stats
         else:
             stats["bypassed"] += 1
